@@ -104,6 +104,51 @@ func producerVolatile(d progen.FileParams) string {
 // names in the uninterrupted run of the same program (crash-restart phase).
 var keptExpect = -1
 
+var refKeptCache = map[string]int{}
+
+// refKeptLeaves: how many files the top-level outputs 'kept' / 'kept2'
+// name according to the reference interpreter (-1 if unknown).
+func refKeptLeaves(d progen.FileParams) int {
+	key := d.String()
+	if n, ok := refKeptCache[key]; ok {
+		return n
+	}
+	n := -1
+	if p := progen.FileFlow(d); p != nil {
+		if ref, err := progen.Interpret(p); err == nil && ref.TopOuts != nil && ref.TopOuts.K == progen.VObj {
+			n = countFileLeaves(ref.TopOuts.O["kept"]) + countFileLeaves(ref.TopOuts.O["kept2"])
+		}
+	}
+	refKeptCache[key] = n
+	return n
+}
+
+// countFileLeaves counts the logical file names ("@...") of a reference value.
+func countFileLeaves(v *progen.Val) int {
+	if v == nil {
+		return 0
+	}
+	switch v.K {
+	case progen.VStr:
+		if strings.HasPrefix(v.S, "@") {
+			return 1
+		}
+	case progen.VArr:
+		n := 0
+		for _, e := range v.A {
+			n += countFileLeaves(e)
+		}
+		return n
+	case progen.VObj:
+		n := 0
+		for _, e := range v.O {
+			n += countFileLeaves(e)
+		}
+		return n
+	}
+	return 0
+}
+
 func fileOracle(prop string, d progen.FileParams, res *Result) []string {
 	var out []string
 	if res.Err != "" {
@@ -139,6 +184,8 @@ func fileOracle(prop string, d progen.FileParams, res *Result) []string {
 		if d.TopOut {
 			if len(keptPaths) == 0 {
 				out = append(out, "the top-level output 'kept' names no file: "+res.TopOutsText)
+			} else if want := refKeptLeaves(d); want >= 0 && len(keptPaths) != want {
+				out = append(out, fmt.Sprintf("the top-level output 'kept' names %d file(s), the program denotes %d: %s", len(keptPaths), want, res.TopOutsText))
 			} else if keptExpect >= 0 && len(keptPaths) != keptExpect {
 				out = append(out, fmt.Sprintf("the top-level output 'kept' names %d file(s), the uninterrupted run names %d: %s", len(keptPaths), keptExpect, res.TopOutsText))
 			}
@@ -165,6 +212,12 @@ func fileOracle(prop string, d progen.FileParams, res *Result) []string {
 	for _, kp := range keptPaths {
 		if msg := CheckFileIntact(kp); msg != "" {
 			out = append(out, "reclaimed a file named by a top-level output: "+msg)
+		}
+	}
+	if d.TopOut {
+		// a reclaimed output file is recorded as null by post-processing
+		if want := refKeptLeaves(d); want >= 0 && len(keptPaths) < want {
+			out = append(out, fmt.Sprintf("the top-level output 'kept' names %d file(s) at the end, the program denotes %d: files named by a top-level output were reclaimed", len(keptPaths), want))
 		}
 	}
 	if d.Retain != "" && !d.TopOut {
